@@ -854,12 +854,365 @@ def p_xpub_assumptions(xpub):
     return None
 
 
+# ------------------------------------------------------------------ round-3 audit: entry points, defaults, shared state
+# Independent expectations for everything below: SLIP-132 normalisation, sorting, rendering, checksum, BIP32 children
+# and child xpubs are computed by the references of this file only.
+
+def ref_norm_xpub(xpub):
+    """(xpub re-encoded with the plain xpub/tpub version, network number) — Base58Check by this file"""
+    body = ref_b58check_decode(_s(xpub))
+    assert len(body) == 78 and body[:4].hex() in MAIN_VERSIONS + TEST_VERSIONS
+    net = 0 if body[:4].hex() in MAIN_VERSIONS else 1
+    return ref_b58check_encode(bytes.fromhex((MAIN_VERSIONS, TEST_VERSIONS)[net][0]) + body[4:]), net
+
+
+def ref_child_xpub(xpub, idx):
+    """BIP32 serialisation of CKDpub(xpub, idx); the version bytes of the parent are kept"""
+    body = ref_b58check_decode(_s(xpub))
+    chain, sec = ref_ckd_pub(body[13:45], body[45:78], idx)
+    fp = hashlib.new("ripemd160", hashlib.sha256(body[45:78]).digest()).digest()[:4]
+    return ref_b58check_encode(body[:4] + bytes([body[4] + 1]) + fp + idx.to_bytes(4, "big") + chain + sec)
+
+
+def ref_expected(m, fields, sort=True):
+    """(key_records, descriptor text, checksum, network number) the property prescribes for the supplied records"""
+    recs, nets = [], set()
+    for x, p, k, i in fields:
+        nk, net = ref_norm_xpub(k)
+        nets.add(net)
+        recs.append({"path": "m" + _s(p).strip()[1:], "xfp": _s(x).lower(), "xpub_parent": nk, "account_index": i})
+    assert len(nets) == 1
+    if sort:
+        recs.sort(key=lambda q: q["xpub_parent"])
+    body = "wsh(sortedmulti(%d,%s))" % (m, ",".join(
+        "[%s%s]%s/%d/*" % (q["xfp"], q["path"][1:], q["xpub_parent"], q["account_index"]) for q in recs))
+    return recs, body, ref_checksum(body), nets.pop()
+
+
+def _ref_addr(m, recs, net, offset, chg, srt):
+    secs = [ref_child_sec(q["xpub_parent"], q["account_index"] + (1 if chg else 0), offset) for q in recs]
+    if srt:
+        script = ref_script(m, secs)
+    else:
+        script = bytes([80 + m]) + b"".join(bytes([len(x)]) + x for x in secs) + bytes([80 + len(secs), 174])
+    return ref_p2wsh_address(hashlib.sha256(script).digest(), net)
+
+
+def _obj_is(o, m, exp):
+    recs, body, cs, net = exp
+    if o.quorum_m != m or o.quorum_n != len(recs) or o.m_of_n != "%d-of-%d" % (m, len(recs)):
+        return "quorum_m / quorum_n / m_of_n differ from the supplied threshold and record count"
+    if o.key_records != recs:
+        return f"key_records are {o.key_records}, expected {recs}"
+    if o.descriptor_text != body or o.checksum != cs or str(o) != body + "#" + cs or repr(o) != body + "#" + cs \
+            or f"{o}" != body + "#" + cs:
+        return f"text is {o!r}, expected {body}#{cs}"
+    if NETNUM.get(o.network) != net:
+        return f"network is {o.network!r}"
+    return None
+
+
+def _raises(f, *exc):
+    try:
+        f()
+    except (exc or (ValueError,)):
+        return True
+    return False
+
+
+def p_defaults(m, recs, offset):
+    """every way of leaving out / spelling the optional arguments of the constructor and of get_address"""
+    records = mkrecs(recs)
+    n = len(records)
+    exp, exp_u = ref_expected(m, recs), ref_expected(m, recs, sort=False)
+    cs, cs_u = exp[2], exp_u[2]
+    if _raises(lambda: P2WSHSortedMulti(m)) is False or _raises(lambda: P2WSHSortedMulti(quorum_m=m)) is False:
+        return "P2WSHSortedMulti(m) without key records did not raise ValueError"
+    forms = [("(m, recs)", lambda: P2WSHSortedMulti(m, records), exp),
+             ("(quorum_m=, key_records=)", lambda: P2WSHSortedMulti(quorum_m=m, key_records=records), exp),
+             ("checksum=None", lambda: P2WSHSortedMulti(m, records, checksum=None), exp),
+             ("checksum=''", lambda: P2WSHSortedMulti(m, records, checksum=""), exp),
+             ("(m, recs, cs)", lambda: P2WSHSortedMulti(m, records, cs), exp),
+             ("(m, recs, cs, True)", lambda: P2WSHSortedMulti(m, records, cs, True), exp),
+             ("sort_key_records=True", lambda: P2WSHSortedMulti(m, records, sort_key_records=True), exp),
+             ("sort_key_records=False", lambda: P2WSHSortedMulti(m, records, sort_key_records=False), exp_u),
+             ("(m, recs, None, False)", lambda: P2WSHSortedMulti(m, records, None, False), exp_u),
+             ("(m, recs, cs_unsorted, False)", lambda: P2WSHSortedMulti(m, records, cs_u, False), exp_u)]
+    objs = []
+    for what, f, e in forms:
+        try:
+            o = f()
+        except Exception as ex:
+            return f"P2WSHSortedMulti{what} raised {type(ex).__name__}: {str(ex)[:80]}"
+        d = _obj_is(o, m, e)
+        if d:
+            return f"P2WSHSortedMulti{what}: " + d
+        objs.append(o)
+    if _raises(lambda: P2WSHSortedMulti(m)) is False or _raises(lambda: P2WSHSortedMulti(m, [])) is False:
+        return "P2WSHSortedMulti(m) without key records did not raise ValueError after other descriptors were built"
+    if cs != cs_u:
+        if not _raises(lambda: P2WSHSortedMulti(m, records, cs_u)) or not _raises(lambda: P2WSHSortedMulti(m, records, cs, False)):
+            return "the checksum of the other record order was accepted"
+    can_chg = all(q["account_index"] + 1 < 2 ** 31 for q in records)
+    for o, e in ((objs[0], exp), (objs[7], exp_u)):
+        calls = [("(sort_keys=False)", lambda: o.get_address(sort_keys=False), (0, False, False)),
+                 ("()", lambda: o.get_address(), (0, False, True)),
+                 ("(offset=off)", lambda: o.get_address(offset=offset), (offset, False, True))]
+        if can_chg:
+            calls += [("(is_change=True)", lambda: o.get_address(is_change=True), (0, True, True)),
+                      ("(off, True)", lambda: o.get_address(offset, True), (offset, True, True)),
+                      ("(off, True, False)", lambda: o.get_address(offset, True, False), (offset, True, False))]
+        for what, f, (off, chg, srt) in (calls if o is objs[0] else calls[:1]):
+            got, want = f(), _ref_addr(m, e[0], e[3], off, chg, srt)
+            if got != want:
+                return (f"get_address{what} gives {got}; offset={off}, is_change={chg}, sort_keys={srt} over the BIP32 "
+                        f"children of the records is {want}")
+    return None
+
+
+def p_mw_flow(m, fields, full, offset):
+    """the route multiwallet.py takes: key-record TEXT -> parse_any_key_record -> (partial: account 0) -> constructor with
+    the dictionaries as they come (extra keys network / xpub_child) -> text, addresses, parse"""
+    krs, eff = [], []
+    for (x, p, k, i), f in zip(fields, full):
+        x, p, k = _s(x), _s(p), _s(k)
+        text = f"[{x}{p[1:]}]{k}" + (f"/{i}/*" if f else "")
+        d = descriptor.parse_any_key_record(key_record_str=text)
+        want = {"xfp": x, "path": p, "network": NETS[ref_norm_xpub(k)[1]]}
+        if f:
+            want.update(account_index=i, xpub_parent=k, xpub_child=ref_child_xpub(k, i))
+            other = descriptor.parse_full_key_record(key_record_str=text)
+            if _raises(lambda: descriptor.parse_full_key_record(text[:-2])) is False:
+                return "parse_full_key_record accepted a record without /*"
+        else:
+            want["xpub"] = k
+            other = descriptor.parse_partial_key_record(key_record_str=text)
+            if _raises(lambda: descriptor.parse_full_key_record(text)) is False:
+                return "parse_full_key_record accepted a partial record"
+        if d != want:
+            return f"parse_any_key_record({text!r}) gives {d}, expected {want}"
+        if other != want or other is d:
+            return f"parse_full/partial_key_record({text!r}) gives {other}, expected {want}"
+        if d.get("account_index") is None:            # multiwallet.py do_create_output_descriptors
+            d["account_index"] = 0
+            d["xpub_parent"] = d.pop("xpub")
+        krs.append(d)
+        eff.append([x, p, k, i if f else 0])
+    import copy
+    snap = copy.deepcopy(krs)
+    o = P2WSHSortedMulti(quorum_m=m, key_records=krs, sort_key_records=True)
+    exp = ref_expected(m, eff)
+    d = _obj_is(o, m, exp)
+    if d:
+        return "descriptor built from parse_any_key_record dictionaries: " + d
+    if krs != snap:
+        return "the constructor modified the parse_any_key_record dictionaries"
+    for chg in (False, True):
+        if chg and any(q["account_index"] + 1 >= 2 ** 31 for q in exp[0]):
+            continue
+        got, want = o.get_address(offset, chg), _ref_addr(m, exp[0], exp[3], offset, chg, True)
+        if got != want:
+            return f"get_address({offset}, {chg}) of the descriptor built from key-record texts gives {got}, expected {want}"
+    p = P2WSHSortedMulti.parse(output_record=str(o))
+    d = _obj_is(p, m, exp)
+    if d:
+        return "parse(output_record=str(d)): " + d
+    return None
+
+
+def p_share(m, recs, offset, srt):
+    """the source is used again AFTER the result was produced: the caller's dictionaries are edited after construction, one
+    descriptor is edited while a sibling built from the same records (or parsed from the same text) is observed"""
+    records = mkrecs(recs)
+    exp = ref_expected(m, recs, sort=bool(srt))
+    a = P2WSHSortedMulti(m, records, sort_key_records=bool(srt))
+    b = P2WSHSortedMulti(m, records, sort_key_records=bool(srt))
+    want = _ref_addr(m, exp[0], exp[3], offset, False, True)
+
+    def intact(o, what, addr=True):
+        d = _obj_is(o, m, exp)
+        if d:
+            return what + ": " + d
+        if not addr:
+            return None
+        got = o.get_address(offset)
+        if got != want:
+            return f"{what}: get_address({offset}) gives {got}, expected {want}"
+        return None
+
+    for q in records:                                 # the caller goes on using its own dictionaries
+        q["account_index"] = (q["account_index"] + 3) % (2 ** 31 - 1)
+        q["xfp"], q["path"] = "ffffffff", "m/1"
+    records[0]["xpub_parent"], records[-1]["xpub_parent"] = records[-1]["xpub_parent"], records[0]["xpub_parent"]
+    records.reverse()
+    records.append(dict(records[0]))
+    for o, w in ((a, "first"), (b, "second")):
+        d = intact(o, f"after the caller edited the dictionaries it had passed to the constructor ({w} descriptor)", o is a)
+        if d:
+            return d
+    a.caravan_export()
+    a.caravan_export(wallet_name="x", key_record_names=[str(j) for j in range(len(recs))])
+    d = intact(a, "after caravan_export", False)
+    if d:
+        return d
+    for q in a.key_records:                           # one descriptor edited in place, its sibling observed
+        q["account_index"] = (q["account_index"] + 1) % (2 ** 31 - 1)
+        q["xpub_parent"] = a.key_records[0]["xpub_parent"]
+    a.key_records.reverse()
+    a.key_records.pop()
+    a.quorum_m, a.network = 1, ("testnet" if a.network == "mainnet" else "mainnet")
+    d = intact(b, "after a descriptor built from the same records was edited in place")
+    if d:
+        return d
+    text = exp[1] + "#" + exp[2]
+    p1 = P2WSHSortedMulti.parse(text)
+    p2 = P2WSHSortedMulti.parse(text)
+    for q in p1.key_records:
+        q["account_index"] = (q["account_index"] + 1) % (2 ** 31 - 1)
+    p1.key_records.reverse()
+    p1.key_records.append(dict(p1.key_records[0]))
+    p3 = P2WSHSortedMulti.parse(text)
+    for o, w in ((p2, "parsed before"), (p3, "parsed after")):
+        d = intact(o, f"after another descriptor parsed from the same text was edited ({w} the edit)", o is p2)
+        if d:
+            return d
+    c = P2WSHSortedMulti(m, mkrecs(recs), sort_key_records=bool(srt))
+    return intact(c, "a fresh descriptor after all of the above", False)
+
+
+def p_fail_retry(m, recs, offset):
+    """failure paths followed by a retry on the same object / with the same arguments"""
+    exp = ref_expected(m, recs)
+    cs = exp[2]
+    wrong = "".join(CHECKSUM_CHARSET[(CHECKSUM_CHARSET.index(c) + 5) % 32] for c in cs)
+    records = mkrecs(recs)
+    for attempt in range(2):
+        if not _raises(lambda: P2WSHSortedMulti(m, records, checksum=wrong)):
+            return "constructor accepted a wrong checksum"
+        if not _raises(lambda: P2WSHSortedMulti.parse(exp[1] + "#" + wrong)):
+            return "parse accepted a wrong checksum"
+        if not _raises(lambda: P2WSHSortedMulti(len(recs) + 1, records)):
+            return "constructor accepted m > n"
+        if not _raises(lambda: descriptor.calc_core_checksum(exp[1] + "\t")):
+            return "calc_core_checksum accepted a tab"
+        if descriptor.calc_core_checksum(exp[1]) != cs:
+            return "calc_core_checksum after a rejected text differs from Bitcoin Core's checksum"
+        for what, o in (("constructor", P2WSHSortedMulti(m, records, checksum=cs)),
+                        ("parse", P2WSHSortedMulti.parse(exp[1] + "#" + cs)), ("parse without checksum", P2WSHSortedMulti.parse(exp[1]))):
+            d = _obj_is(o, m, exp)
+            if d:
+                return f"{what} after a rejected attempt: " + d
+    # get_address: the change branch of account index 2^31-1 does not exist; the receive branch does
+    top = [list(q) for q in recs]
+    top[-1][3] = 2 ** 31 - 1
+    e2 = ref_expected(m, top)
+    o = P2WSHSortedMulti(m, mkrecs(top))
+    for attempt in range(2):
+        if not _raises(lambda: o.get_address(offset, True)) or not _raises(lambda: o.get_address(is_change=True)):
+            return "an account index of 2^31 was derived"
+        if not _raises(lambda: o.get_address(-1), AssertionError, ValueError) or \
+                not _raises(lambda: o.get_address(2 ** 31), AssertionError, ValueError):
+            return "an offset outside 0..2^31-1 was derived"
+        for off in (offset, 0):
+            got, want = o.get_address(off), _ref_addr(m, e2[0], e2[3], off, False, True)
+            if got != want:
+                return f"get_address({off}) after failed calls on the same descriptor gives {got}, expected {want}"
+        d = _obj_is(o, m, e2)
+        if d:
+            return "after failed get_address calls: " + d
+    return None
+
+
+def p_caravan(m, recs, names):
+    """caravan_export (default and explicit names) lists every cosigner's OWN path / xpub / fingerprint / name"""
+    import json
+    names = [_s(x) for x in names]
+    o = P2WSHSortedMulti(m, mkrecs(recs))
+    exp = ref_expected(m, recs)
+    idxs = [q["account_index"] for q in exp[0]]
+
+    def want(wname, nm):
+        return {"name": wname, "addressType": "P2WSH", "network": NETS[exp[3]], "client": {"type": "public"},
+                "quorum": {"requiredSigners": m, "totalSigners": len(recs)},
+                "extendedPublicKeys": [{"bip32Path": q["path"].replace("h", "'").replace("H", "'"), "xpub": q["xpub_parent"],
+                                        "xfp": q["xfp"], "name": nm[j]} for j, q in enumerate(exp[0])]}
+    auto = ["Seed " + "ABCDEFGHIJKLMNOPQRSTUVWXYZ"[j] for j in range(len(recs))]
+    keep = list(names)
+    runs = [("()", lambda: o.caravan_export(), want("p2wsh", auto)),
+            ("(wallet_name, names)", lambda: o.caravan_export("w", names), want("w", names)),
+            ("(key_record_names=names)", lambda: o.caravan_export(key_record_names=names), want("p2wsh", names)),
+            ("() again", lambda: o.caravan_export(), want("p2wsh", auto)),
+            ("(wallet_name=)", lambda: o.caravan_export(wallet_name="v"), want("v", auto))]
+    for what, f, w in runs:
+        got = json.loads(f())
+        sai = got.pop("startingAddressIndex", None)
+        if got != w:
+            return f"caravan_export{what} gives {got}, expected {w}"
+        if sai not in idxs or (len(set(idxs)) == 1 and sai != idxs[0]) or type(sai) is not int:
+            return f"caravan_export{what}: startingAddressIndex {sai} is no account index of the wallet"
+    if names != keep:
+        return "caravan_export modified the list of names"
+    if not _raises(lambda: o.caravan_export(key_record_names=names + ["x"])) or (len(names) > 1 and
+                                                                              not _raises(lambda: o.caravan_export(key_record_names=names[:-1]))):
+        return "caravan_export accepted a list of names of the wrong length"
+    return _obj_is(o, m, exp)
+
+
+GROUND_PRE = ("wsh(sortedmulti(1,[c7d0648a/48h/1h/0h/2h]tpubDEpefcgzY6ZyEV2uF4xcW2z8bZ3DNeWx9h2BcwcX973BHrmkQxJhpAXoSWZeHkm"
+              "kiTtnUjfERsTDTVCcifW6po3PFR1JRjUUTJHvPpDqJhr/")
+# account indexes ground offline so that the checksum falls into an unusual character class
+GROUND = [(13876, "54390797"), (20294, "pcccnccn"), (188629, "qq5m7fqq")]
+GROUND_TEXTS = [("wsh(sortedmulti(13303", "qqqqgfpg"), ("wsh(sortedmulti(18622", "38982375"),
+                ("wsh(sortedmulti(58133", "st3a3qqq"), ("wsh(sortedmulti(522043", "lhhhllhh")]
+
+
+def p_ground(idx, cs):
+    """a descriptor whose checksum consists of digits only / of three letters / begins and ends with "qq" """
+    body = GROUND_PRE + "%d/*))" % idx
+    if ref_checksum(body) != cs:
+        return "harness: the ground checksum is not Bitcoin Core's checksum"
+    if descriptor.calc_core_checksum(body) != cs:
+        return f"calc_core_checksum gives {descriptor.calc_core_checksum(body)!r}, Bitcoin Core's algorithm {cs!r}"
+    fields = [["c7d0648a", "m/48h/1h/0h/2h", GROUND_PRE[GROUND_PRE.index("]") + 1:-1], idx]]
+    exp = ref_expected(1, fields)
+    if exp[1] != body:
+        return "harness: rendering"
+    for what, f in (("parse(text#checksum)", lambda: P2WSHSortedMulti.parse(body + "#" + cs)),
+                    ("parse(text)", lambda: P2WSHSortedMulti.parse(body)),
+                    ("constructor(checksum=)", lambda: P2WSHSortedMulti(1, mkrecs(fields), checksum=cs))):
+        try:
+            o = f()
+        except Exception as ex:
+            return f"{what} raised {type(ex).__name__}: {str(ex)[:80]}"
+        d = _obj_is(o, 1, exp)
+        if d:
+            return f"{what}: " + d
+    for pos in (0, 3, 7):
+        alt = [c for c in ("0123456789" if cs[pos].isdigit() else CHECKSUM_CHARSET) if c != cs[pos] and c in CHECKSUM_CHARSET]
+        bad = cs[:pos] + alt[(idx + pos) % len(alt)] + cs[pos + 1:]
+        if _accepts(body + "#" + bad) is not None:
+            return f"checksum {bad!r} accepted for a descriptor whose checksum is {cs!r}"
+        if not _raises(lambda: P2WSHSortedMulti(1, mkrecs(fields), checksum=bad)):
+            return f"constructor accepted checksum {bad!r} for a descriptor whose checksum is {cs!r}"
+    return None
+
+
+def p_checksum_is(t, cs):
+    t, cs = _s(t), _s(cs)
+    if ref_checksum(t) != cs:
+        return "harness: the hard-coded checksum is not Bitcoin Core's checksum"
+    got = descriptor.calc_core_checksum(t)
+    return None if got == cs else f"calc_core_checksum({t!r}) gives {got!r}, Bitcoin Core's algorithm gives {cs!r}"
+
+
 PROPS = {"path_assumptions": p_path_assumptions, "xpub_assumptions": p_xpub_assumptions,
          "checksum_ref": p_checksum_ref, "vectors": p_vectors, "roundtrip": p_roundtrip, "order": p_order,
          "address": p_address, "subst": p_subst, "subst_separator": p_subst_separator,
          "regex_class": p_regex_class, "ctor_own_output": p_ctor_own_output,
          "reuse_desc": p_reuse_desc, "checksum_order": p_checksum_order, "parse_order": p_parse_order,
-         "ctor_pure": p_ctor_pure, "reuse_hdpub": p_reuse_hdpub}
+         "ctor_pure": p_ctor_pure, "reuse_hdpub": p_reuse_hdpub,
+         "defaults": p_defaults, "mw_flow": p_mw_flow, "share": p_share, "fail_retry": p_fail_retry,
+         "caravan": p_caravan, "ground": p_ground, "checksum_is": p_checksum_is}
 
 
 def classify(v):
@@ -1309,3 +1662,119 @@ def generate(ctx):
         idxs = [[r.choice([0, 1, 2, 256, 2 ** 16, 2 ** 31 - 1]), r.choice([0, 1, 5, 257, 2 ** 31 - 1])] for _ in range(ctx.n(6, 20))]
         ctx.label("reuse/hdpublickey")
         yield ("prop", "reuse_hdpub", [k.plain, idxs])
+
+    # ---- round-3 audit: alternative entry points, defaults, coincidences, character classes, per-element attributes,
+    #      shared state (every expectation comes from the references of this file)
+    def with_version(xpub, vhex):
+        return ref_b58check_encode(bytes.fromhex(vhex) + ref_b58check_decode(xpub)[4:])
+
+    def hetero(net, n):
+        """records that differ in EVERY per-element attribute: account index (record j's change branch is another record's
+        receive branch), path, fingerprint, SLIP-132 version; the versions are chosen so that the order of the supplied
+        texts is the reverse of the order of the normalised xpubs, and the supplied order is neither"""
+        keys = sorted(r.sample(pool[net], n), key=lambda k: k.plain)
+        vs = MAIN_VERSIONS if net == "mainnet" else TEST_VERSIONS
+        texts = sorted(vs, key=lambda v: with_version(keys[0].plain, v)[:4], reverse=True)
+        idxs = [1, 0, 7, 2 ** 31 - 2, 2, 5]
+        recs = [[k.xfp, k.path, with_version(k.plain, texts[j % len(texts)]), idxs[j]] for j, k in enumerate(keys)]
+        return recs[1:] + recs[:1]
+
+    hets = [(2, "mainnet", hetero("mainnet", 3)), (1, "testnet", hetero("testnet", 2))]
+    if not quick:
+        hets += [(3, "testnet", hetero("testnet", 4)), (2, "mainnet", hetero("mainnet", 6))]
+    for m, net, recs in hets:
+        n = len(recs)
+        ctx.label("audit/hetero-wallet")
+        exp = ref_expected(m, recs)
+        sup = [ref_norm_xpub(k)[0] for _, _, k, _ in recs]
+        assert sorted(sup) != sup and sorted(k for _, _, k, _ in recs) != [k for _, _, k, _ in sorted(recs, key=lambda q: ref_norm_xpub(q[2])[0])]
+        yield construct_case(m, recs)
+        yield construct_case(m, recs, srt=0)
+        yield construct_case(m, recs, cs=exp[2])
+        yield ("prop", "roundtrip", [m, recs])
+        norm = [[q["xfp"], q["path"], q["xpub_parent"], q["account_index"]] for q in exp[0]]
+        off = r.choice([0, 1, 2 ** 31 - 1, r.randrange(2 ** 31)])
+        for chg in (0, 1):
+            yield address_case(m, NETNUM[net], norm, off, chg)
+        yield address_case(m, NETNUM[net], norm, off, 1, srt=0)
+        yield ("prop", "address", [m, recs, off])
+        yield ("prop", "order", [m, recs, list(reversed(range(n))), int(n == 3 or not quick), off, 1])
+        yield ("prop", "defaults", [m, recs, off])
+        yield ("prop", "share", [m, recs, off, n % 2])
+        if n != 3 or not quick:
+            yield ("prop", "fail_retry", [m, recs, off])
+        yield ("prop", "caravan", [m, recs, ["name %d" % j for j in range(n)]])
+        plain = [[x, p, ref_norm_xpub(k)[0], i] for x, p, k, i in recs]
+        canon = [q for q in plain if impl_path_ok(q[1]) and q[1] == q[1].strip() and q[1][:1] == "m"]
+        if len(canon) == n:
+            ctx.label("audit/multiwallet-flow")
+            if n == 3 or not quick:
+                yield ("prop", "mw_flow", [m, plain, [1] * n, off])
+            yield ("prop", "mw_flow", [m, plain, [j % 2 for j in range(n)], off])
+            if n != 3 or not quick:
+                yield ("prop", "mw_flow", [m, [[x, p, k, i] for (x, p, _, i), (_, _, k, _) in zip(plain, recs)], [0] * n, off])
+    # one wallet of the ordinary kind whose children (offset 0, receive) sort differently from their parents
+    for m, n, net, recs in sorted(wallets, key=lambda w: w[1]):
+        if n >= 2 and all(i + 1 < 2 ** 31 for _, _, _, i in recs):
+            e = ref_expected(m, recs)
+            secs = [ref_child_sec(q["xpub_parent"], q["account_index"], 0) for q in e[0]]
+            if secs != sorted(secs):
+                ctx.label("audit/children-sort-differently")
+                yield ("prop", "defaults", [m, recs, r.randrange(2 ** 31)])
+                yield ("prop", "caravan", [m, recs, ["a", "b", "c", "d", "e", "f"][:n]])
+                break
+    # (c) two slots with the same xpub: different branches, neighbouring branches (change of one = receive of the other),
+    #     the very same key twice; network taken from a record other than the first
+    a, b, t = pool["mainnet"][0], pool["mainnet"][1], pool["testnet"][0]
+    for i0, i1 in ((0, 1), (3, 3), (5, 0)):
+        ctx.label("audit/same-xpub-twice")
+        dup = [a.rec(r, idx=i0), a.rec(r, idx=i1)]
+        if i0 == 0:
+            yield address_case(2, 0, dup, 0, 0)
+            yield address_case(2, 0, dup, 0, 1)
+            yield ("prop", "defaults", [1, dup, 2])
+        else:
+            yield address_case(1, 0, dup, 1, int(i0 == 3), srt=int(i0 == 3))
+    for recs in ([a.rec(r), b.rec(r), t.rec(r)], [t.rec(r), pool["testnet"][1].rec(r), a.rec(r, slip=True)],
+                 [a.rec(r, slip=True), t.rec(r, slip=True), b.rec(r)]):
+        ctx.label("audit/network-mix-3")
+        yield construct_case(1, recs)
+        yield construct_case(1, recs, srt=0)
+        yield parse_case(1, [[x, p[1:], k, i] for x, p, k, i in recs], "")
+    # (d) fingerprints of one character class
+    for xf in ["00000000", "12345678", "99999999", "ffffffff", "abcdefab", "ABCDEFAB", "0000000a", "a0000000", "0e000000",
+               "1e999999", "00000inf", "0x000000", "000000_0", "+0000000", " 0000000", "0000000 "]:
+        ctx.label("audit/xfp-class")
+        yield construct_case(1, [[xf, a.path, a.plain, 0]])
+        yield parse_case(1, [[xf, a.path[1:], a.plain, 0]], "")
+        yield ("prop", "ctor_own_output", [1, [[xf, a.path, a.plain, 0]]])
+    # (e) a character outside the descriptor charset inside an otherwise valid path (is_valid_bip32_path is forgiving)
+    for bp in ["m/48h/\t1", "m/48h/1\n", "m/\x0b1", "m/1\x1f/2", "m/1\xa0"]:
+        ctx.label("audit/foreign-char-in-path")
+        yield construct_case(1, [[a.xfp, bp, a.plain, 0]])
+        yield ("prop", "ctor_own_output", [1, [[a.xfp, bp, a.plain, 0]]])
+        yield ptext_case(f"wsh(sortedmulti(1,[{a.xfp}{bp[1:]}]{a.plain}/0/*))")
+    # (d) checksum texts of a single character class, and texts / descriptors whose CHECKSUM is of an unusual class
+    for g in range(3):
+        alpha = INPUT_CHARSET[32 * g: 32 * g + 32]
+        for ln in list(range(1, 10)) + [30, 31, 32, 299, 300, 301]:
+            tx = rtext(r, ln, alpha)
+            ctx.label("audit/checksum-one-group")
+            yield ("corr", "checksum", [tx])
+            yield ("corr", "core_checksum", [tx])
+            yield ("prop", "checksum_ref", [tx])
+    for alpha in ["0123456789", "abcdefghijklmnopqrstuvwxyz", "ABCDEFGHIJKLMNOPQRSTUVWXYZ", "()[],'/*@:$%{}&+-.;<=>?!^_|~`#\"\\ ",
+                  "0", " ", "~", "q", "Z", "\\"]:
+        for ln in (8, 99, 100, 101):
+            tx = rtext(r, ln, alpha)
+            ctx.label("audit/checksum-char-class")
+            yield ("corr", "checksum", [tx])
+            yield ("prop", "checksum_ref", [tx])
+    for tx, cs in GROUND_TEXTS:
+        ctx.label("audit/ground-checksum")
+        yield ("corr", "checksum", [tx])
+        yield ("prop", "checksum_is", [tx, cs])
+    for idx, cs in GROUND:
+        ctx.label("audit/ground-descriptor")
+        yield ("prop", "ground", [idx, cs])
+        yield ptext_case(GROUND_PRE + "%d/*))#%s" % (idx, cs))
